@@ -290,6 +290,12 @@ def run(ctx):
         r.check(len(sc) == 1 and describe_operand(st, sc[0].args[-1]).endswith("overwrite_permitted") and describe_operand(st, sc[0].args[1]).endswith(".id"), "SendCommandById::step/own-id-and-flag", where(st),
                 "the command is sent to the commander's own id with the flag it was built with", "SendCommandById::step sends %s" % [describe_operand(st, a) for c in sc for a in c.args])
 
+    with ctx.rule("C14.R12", "T3", "the command decoder resumes a frame that arrives in pieces (state put back before asking for more input; shared with C10.R13)", floor=6) as r:
+        from rules.common import take_and_restore_rule
+        n = take_and_restore_rule(r, ctx.crate("swimos_agent_protocol"), ctx)
+        if n < 6:
+            raise AnchorMissing("take-and-restore decoders: expected at least 6 `Ok(None)` exits from non-initial states (CommandDecoder), found %d" % n)
+
 
 def _assign_operand(body, block, suffix):
     for i, j, p, rv, line in body.assigns():
